@@ -89,10 +89,10 @@ class MpInput3d(Task):
         ctx.oblige("post.entries-are-the-selected-boxes-in-order",
                    veq(ctx, v, SymSeq(fl.cnt(n), lambda p: inp["entry"](fl.idx(p)))), "P")
         i = ctx.fresh("i")
-        ctx.add_pc(z3.And(i >= 0, i < n, fl.at_index(i, n)))
-        # every needed box has exactly the entry of rank CNT(i); no box outside the closed half-cell neighbourhood has one
-        ctx.oblige("post.every-needed-box-is-handed-to-a-worker", z3.Implies(inp["need"](i), z3.And(SEL(i), fl.cnt(i) < fl.cnt(n))), "P")
-        ctx.oblige("post.no-box-away-from-the-plane-is-read", z3.Implies(SEL(i), inp["allowed"](i)), "P")
+        with ctx.scoped(z3.And(i >= 0, i < n, fl.at_index(i, n))):
+            # every needed box has exactly the entry of rank CNT(i); no box outside the closed half-cell neighbourhood has one
+            ctx.oblige("post.every-needed-box-is-handed-to-a-worker", z3.Implies(inp["need"](i), z3.And(SEL(i), fl.cnt(i) < fl.cnt(n))), "P")
+            ctx.oblige("post.no-box-away-from-the-plane-is-read", z3.Implies(SEL(i), inp["allowed"](i)), "P")
         p = ctx.fresh("p")
         ctx.add_pc(z3.And(p >= 0, p < fl.cnt(n), fl.at_rank(p, n)))
         ctx.oblige("post.each-entry-belongs-to-a-selected-box-of-the-level",
@@ -600,7 +600,14 @@ def composition_tasks(prop, nd=3):
     return [SliceComposition(prop, True), SliceComposition(prop, False)]
 
 
-def composition_canaries():
+def composition_canaries(nd=3):
+    if nd == 2:
+        # (a wrong painting order leaves the quantified invariants undecided - no counter-model with quantifiers -; this canary is
+        # one the proof layer refutes)
+        return [("Mandoline.plate: result arrays not transposed",
+                 [("amr_kitchen/mandoline/mandoline.py", "        for i, data in enumerate(all_data):\n            all_data[i] = data.T\n\n        if fformat == \"return\":",
+                   "        for i, data in enumerate(all_data):\n            all_data[i] = data\n\n        if fformat == \"return\":")],
+                 ["Mandoline.plate.covering-grid[serial]"])]
     return [("Mandoline.slice: the finest selected level is not read",
              [("amr_kitchen/mandoline/mandoline.py", "        plane_data = []\n        # For a given level\n        for Lv in range(self.limit_level + 1):",
                "        plane_data = []\n        # For a given level\n        for Lv in range(self.limit_level):")],
@@ -789,4 +796,4 @@ def tasks(tier):
 
 
 def canaries(tier):
-    return parent_canaries() + parent_canaries(2) + kernel_canaries2() + kernel_canaries2(("bylevel",)) + kernel_canaries2(("paint",)) + aux_canaries() + composition_canaries()
+    return parent_canaries() + parent_canaries(2) + kernel_canaries2() + kernel_canaries2(("bylevel",)) + kernel_canaries2(("paint",)) + aux_canaries() + composition_canaries() + composition_canaries(2)
